@@ -34,6 +34,28 @@ def exc_name(e):
     return type(e).__name__
 
 
+def reason_of(e):
+    """the refusal reason, read off the exception class and message (one code per `raise` site)"""
+    import argparse
+    m = str(e)
+    if isinstance(e, argparse.ArgumentTypeError):
+        return "numNegative" if "num value" in m else "scaledNegative" if "scaled value" in m else "?"
+    if isinstance(e, OverflowError):
+        return "overflow"
+    if isinstance(e, ValueError):
+        table = [("k takes a parameter", "kNoParam"), ("num takes a parameter", "numNoParam"),
+                 ("scaled takes a parameter", "scaledNoParam"), ("seed takes a parameter", "seedNoParam"),
+                 ("cannot set both num and scaled", "bothNumScaled"), ("cannot parse num=", "numNotInt"),
+                 ("cannot parse scaled=", "scaledNotInt"), ("unknown component", "unknownItem"),
+                 ("invalid literal for int()", "notInt"), ("Incompatible sketch type (dna)", "moltypeUnderDna"),
+                 ("Incompatible sketch type (", "dnaUnderProtein"), ("No default moltype", "noMoltype"),
+                 ("must set either num or scaled", "zeroSize")]
+        for pre, code in table:
+            if m.startswith(pre):
+                return code
+    return "?"
+
+
 def sketches_of(sig):
     """every sketch of a signature, through the JSON writer (BTree Serialize) and reader"""
     js = sigmod.save_signatures_to_json([sig])
@@ -75,17 +97,37 @@ def add_all(objs, seqs, input_kind, force):
                 obj.add_sequence(s, force)
 
 
+_NATIVE = None
+
+
+def native(line):
+    """`native` ops go to the Rust harness (module `sketch`): the same ComputeParameters / from_params /
+    add_sequence path, without Python in between"""
+    global _NATIVE
+    import os, subprocess
+    if _NATIVE is None:
+        build = os.environ.get("VERIF_BUILD") or os.path.join(os.path.dirname(os.path.dirname(
+            os.path.dirname(os.path.abspath(__file__)))), ".build")
+        exe = os.path.join(build, "rh_target", "release", "smharness")
+        _NATIVE = subprocess.Popen([exe, "sketch"], stdin=subprocess.PIPE, stdout=subprocess.PIPE, text=True, bufsize=1)
+    _NATIVE.stdin.write(line.rstrip("\n") + "\n")
+    _NATIVE.stdin.flush()
+    return _NATIVE.stdout.readline().rstrip("\n")
+
+
 def hexs(t):
     return t.encode("latin-1").hex() if t else "-"
 
 
 def run_names(w):
-    """names <file|first|singleton|merge:NAMEHEX> <k> F <fnamehex> <namehex>:<seqhex>.. F ..
+    """names <file|first|singleton|merge:NAMEHEX>[+dir|+newdir|+cwd][+rand][+check] <k> F <fnamehex> <namehex>:<seqhex>.. F ..
     the real `_execute_sketch` (-> _compute_individual / _compute_merged) on FASTA files written to a
-    temp dir under .build/tmp; what it saved: name|filename|md5 per signature, in order"""
+    temp dir under .build/tmp; what it wrote where: path|name|filename|md5 per signature, sorted by path"""
     import argparse, os, shutil, tempfile
     from sourmash.command_sketch import _execute_sketch
-    mode, k = w[1], int(w[2])
+    mflags = w[1].split("+")
+    mode, flags = mflags[0], mflags[1:]
+    k = int(w[2])
     files, cur = [], None
     for t in w[3:]:
         if t == "F":
@@ -104,23 +146,112 @@ def run_names(w):
     try:
         os.chdir(tmp)
         for fname, recs in files:
+            if os.path.dirname(fname):
+                os.makedirs(os.path.dirname(fname), exist_ok=True)
             with open(fname, "w") as fh:
                 for n, q in recs:
                     fh.write(f">{n}\n{q}\n")
+        if "dir" in flags:
+            os.mkdir("outd")
+        inputs = set(f for f, _ in files)
         merge = unhex(mode.split(":")[1]) if mode.startswith("merge:") else ""
-        args = argparse.Namespace(filenames=[f for f, _ in files], output="out.sig", output_dir=None, merge=merge,
+        single = not any(f in flags for f in ("dir", "newdir", "cwd"))
+        args = argparse.Namespace(filenames=[f for f, _ in files], output="out.sig" if single else None,
+                                  output_dir="outd" if ("dir" in flags or "newdir" in flags) else None, merge=merge,
                                   singleton=(mode == "singleton"), name_from_first=(mode == "first"),
-                                  input_is_protein=False, check_sequence=False, license="CC0", force=True,
-                                  quiet=True, randomize=False, from_file=None)
+                                  input_is_protein=False, check_sequence=("check" in flags), license="CC0", force=True,
+                                  quiet=True, randomize=("rand" in flags), from_file=None)
+        # --randomize is accepted by `sketch dna|protein|translate` but only `compute` acts on it: _execute_sketch
+        # ignores the flag, the order of the inputs is kept
         factory = _signatures_for_sketch_factory([f"k={k},scaled=1"], "dna")
         try:
             _execute_sketch(args, factory)
+        except SystemExit:
+            return "err SystemExit"
+        got = []
+        outs = []
+        for d, _, fs in os.walk("."):
+            for f in fs:
+                pth = os.path.normpath(os.path.join(d, f))
+                if pth.endswith(".sig") and pth not in inputs:
+                    outs.append(pth)
+        for pth in sorted(outs):
+            for ss in sourmash.load_file_as_signatures(pth):
+                got.append(f"{hexs(pth)}|{hexs(ss.name)}|{hexs(ss.filename)}|{ss.md5sum()}")
+        return "ok " + ";".join(got)
+    finally:
+        os.chdir(old)
+        shutil.rmtree(tmp, ignore_errors=True)
+
+
+def run_fromfile(w):
+    """fromfile <ign> P <hexp>.. F <fnamehex> <namehex:seqhex>.. R <namehex>:<ghex>:<phex>.. A <namehex>:<mol>:<k>:<num>:<scaled>:<abund>..
+    the real `sketch fromfile` (command_sketch.fromfile) in-process on a temp dir under .build/tmp"""
+    import argparse, os, shutil, tempfile
+    from sourmash.command_sketch import fromfile
+    from sourmash import sourmash_args
+    ign = bool(int(w[1]))
+    toks = w[3:]
+    def upto(ts, marks):
+        i = 0
+        while i < len(ts) and ts[i] not in marks:
+            i += 1
+        return ts[:i], ts[i:]
+    ps, rest = upto(toks, ("F", "R", "A"))
+    ftoks, rest = upto(rest, ("R",))
+    rtoks, rest = upto(rest[1:], ("A",))
+    atoks = rest[1:]
+    files, cur = [], None
+    for t in ftoks:
+        if t == "F":
+            cur = None
+        elif cur is None:
+            cur = (unhex(t), [])
+            files.append(cur)
+        else:
+            n, q = t.split(":")
+            cur[1].append((unhex(n), unhex(q)))
+    base = os.path.join(os.environ.get("VERIF_BUILD") or os.path.join(os.path.dirname(os.path.dirname(
+        os.path.dirname(os.path.abspath(__file__)))), ".build"), "tmp")
+    os.makedirs(base, exist_ok=True)
+    tmp = tempfile.mkdtemp(prefix="c14ff", dir=base)
+    old = os.getcwd()
+    try:
+        os.chdir(tmp)
+        for fname, recs in files:
+            with open(fname, "w") as fh:
+                for n, q in recs:
+                    fh.write(f">{n}\n{q}\n")
+        with open("in.csv", "w", newline="") as fh:
+            import csv
+            cw = csv.writer(fh)
+            cw.writerow(["name", "genome_filename", "protein_filename"])
+            for t in rtoks:
+                n, g, p = t.split(":")
+                cw.writerow([unhex(n), unhex(g), unhex(p)])
+        already = []
+        if atoks:
+            with sourmash_args.SaveSignaturesToLocation("done.zip") as save:
+                for t in atoks:
+                    n, mol, k, num, scaled, ab = t.split(":")
+                    mh = MinHash(n=int(num), ksize=int(k), is_protein=(mol == "protein"), dayhoff=(mol == "dayhoff"),
+                                 hp=(mol == "hp"), track_abundance=bool(int(ab)), scaled=int(scaled))
+                    save.add(SourmashSignature(mh, name=unhex(n)))
+            already = ["done.zip"]
+        args = argparse.Namespace(csvs=["in.csv"], param_string=[unhex(t) for t in ps], already_done=already,
+                                  output_signatures="out.sig", force_output_already_exists=False,
+                                  ignore_missing=ign, output_csv_info=None, output_manifest_matching=None,
+                                  report_duplicated=False, check_sequence=False, license="CC0", quiet=True,
+                                  force=False)
+        try:
+            with contextlib.redirect_stdout(io.StringIO()):       # print_results() writes summaries to stdout
+                fromfile(args)
         except SystemExit as e:
-            return f"err SystemExit"
+            return f"exit {e.code}"
         got = []
         if os.path.exists("out.sig"):
             for ss in sourmash.load_file_as_signatures("out.sig"):
-                got.append(f"{hexs(ss.name)}|{hexs(ss.filename)}|{ss.md5sum()}")
+                got.append(f"{hexs(ss.name)}|{hexs(ss.filename)}|{params_rec(ss.minhash)}|{ss.md5sum()}")
         return "ok " + ";".join(got)
     finally:
         os.chdir(old)
@@ -166,8 +297,12 @@ def main():
                     sig = _signatures_for_sketch_factory(["k=5,scaled=1"], "dna")()[0]
                     set_sig_name([sig], unhex(w[1]), None if w[2] == "none" else unhex(w[2]))
                     res = f"ok {hexs(sig.name)}|{hexs(sig.filename)}"
+                elif op == "fromfile" and len(w) >= 3:
+                    res = run_fromfile(w)
                 elif op == "names" and len(w) >= 3:
                     res = run_names(w)
+                elif op == "native":
+                    res = native(line)
                 elif op == "feed":
                     # feed <defmol> <split> <dna|protein> <force> P <hex>.. D <k:mol:num:scaled:track:seed>.. S <hexseq>..
                     dm, split, kind, force = mol_arg(w[1]), bool(int(w[2])), w[3], bool(int(w[4]))
@@ -192,7 +327,7 @@ def main():
                         # after an error the command exits: what the sketches hold is not observable
                         fpart = f"FERR {ferr}" if ferr else " ".join(F) + " M " + " ".join(M)
                     except BaseException as e:               # noqa: BLE001
-                        fpart = "err " + exc_name(e)
+                        fpart = "err " + exc_name(e) + " " + reason_of(e)
                     D, direct = [], []
                     for sp in specs:
                         k, mol, num, scaled, track, seed = sp.split(":")
@@ -216,7 +351,7 @@ def main():
                 else:
                     res = "bad-op"
         except BaseException as e:          # noqa: BLE001
-            res = "err " + exc_name(e)
+            res = "err " + exc_name(e) + (" " + reason_of(e) if op in ("parse", "factory", "first") else "")
         out.write(res + "\n")
     out.flush()
 
